@@ -33,7 +33,8 @@ ASSUMPTIONS = ['adjoint theorem: symmetry and bilinearity of the inner product, 
                'the objective passed to the reverse rules is an optimism.Objective.Objective (methods resolved against that class)',
                'jax.vjp of the gradient w.r.t. a parameter slot is the transposed parameter Jacobian (JAX); checked against jacfwd in L2']
 RULE = ('seeded parameterised energies (quadratic + quartic, 2-6 unknowns, slots 0,1,2,4, random cotangents) through jax.vjp of nonlinear_solve and '
-        'nonlinear_solve_with_state; synthetic energies / material updates on small structured meshes for the helper VJPs; perturbed meshes for the '
+        'nonlinear_solve_with_state, single solves and 2-3 step load histories on ONE Objective with changing boundary data/time/design and a state slot '
+        'that depends on the previous solution; synthetic energies / material updates on small structured meshes for the helper VJPs; perturbed meshes for the '
         'adjoint function space; distinct = distinct spec tuples, non-trivial = non-zero cotangent and parameter Jacobian')
 IMPORTS = ['From OV.model Require Import M_C07_Refs.', 'From OV.gen Require Import Refs_NonlinearSolve.']
 
@@ -124,6 +125,22 @@ def run_reverse(spec):
                 if gp[3] is not None or gp[5] is not None:
                     bad.append('cotangent for an absent parameter slot (3 or 5) is not None')
             xs = obj_solution(M, f, p, n)
+            # the parameter-Jacobian products of class Objective themselves (forward and reverse), against dense jacfwd
+            g = jax.grad(f)
+            rr = random.Random(spec['seed'] + 3)
+            xq = jnp.array([rr.uniform(-1, 1) for _ in range(n)])
+            vx = jnp.array([rr.uniform(-1, 1) for _ in range(n)])
+            for k, fwd, rev in ((0, obj.jacobian_p_vec, obj.vec_jacobian_p0), (1, None, obj.vec_jacobian_p1),
+                                (2, obj.jacobian_p2_vec, obj.vec_jacobian_p2), (4, None, obj.vec_jacobian_p4)):
+                Jk = onp.array(jax.jacfwd(lambda q: g(xq, Obj.param_index_update(p, k, q)))(p[k]))
+                Jk = Jk.reshape(n, -1)
+                got_r = onp.atleast_1d(onp.array(rev(xq, vx)[0])).ravel()
+                if not onp.allclose(got_r, Jk.T @ onp.array(vx), rtol=1e-10, atol=1e-12):
+                    bad.append('Objective.vec_jacobian_p%d differs from the transposed dense parameter Jacobian' % k)
+                if fwd is not None:
+                    vp = jnp.array([rr.uniform(-1, 1) for _ in range(Jk.shape[1])])
+                    if not onp.allclose(onp.array(fwd(xq, vp)), Jk @ onp.array(vp), rtol=1e-10, atol=1e-12):
+                        bad.append('Objective.jacobian_p%s_vec differs from the dense parameter Jacobian action' % ('' if k == 0 else '2'))
     except Exception as ex:
         return ['reverse mode through the nonlinear solve raised %s: %s' % (type(ex).__name__, str(ex)[:200])], dict(error=type(ex).__name__)
     ref, H = dense_ift(M, f, xs, p, v)
@@ -150,6 +167,70 @@ def obj_solution(M, f, p, n):
         x = x - jnp.linalg.solve(h(x, p), g(x, p))
     return x
 
+
+
+# ============================================================================ (a') multi-step load histories sharing ONE Objective
+
+def run_history(spec):
+    """K load steps through the same Objective; boundary data, time and design change from step to step and the state slot depends on the
+    previous solution (path dependence).  J = sum_k v_k . U_k is differentiated in reverse mode w.r.t. (bc parameter, design parameter):
+    the backward rule of step k runs while the objective still holds the parameters of the LAST step, so it must restore its own.
+    Reference: the same chain with a plain differentiable Newton iteration (no optimism reverse rule involved)."""
+    M = mods()
+    jax, jnp, onp, Obj, Eq, NLS = M['jax'], M['jnp'], M['onp'], M['Obj'], M['Eq'], M['NLS']
+    f, p, v = build_energy(spec)
+    r = random.Random(spec['seed'] + 7)
+    n, K = spec['n'], spec['steps']
+    As = jnp.array([[r.uniform(-1, 1) for _ in range(n)] for _ in range(spec.get('k1', 2))])
+    vs = [jnp.array([r.uniform(-1, 1) for _ in range(n)]) for _ in range(K)]
+    sc = [r.uniform(0.5, 1.5) * (-1) ** k for k in range(K)]
+    ts = [r.uniform(0.2, 1.0) for _ in range(K)]
+    settings = Eq.get_settings(tol=1e-11, max_trust_iters=300)
+    state_rule = spec['rule'] == 'state'
+
+    def params(k, U, b, d):
+        if state_rule:
+            return Obj.Params(bc_data=b * sc[k], state_data=p[1] + jnp.tanh(As @ U), design_data=d * (1.0 + 0.3 * k), time=jnp.array(ts[k]))
+        return Obj.param_index_update(p, 2, d * (1.0 + 0.3 * k))      # the design rule keeps the other slots of objective.p
+
+    def newton(pk, x):
+        g, h = jax.grad(f), jax.hessian(f)
+        for _ in range(40):
+            x = x - jnp.linalg.solve(h(x, pk), g(x, pk))
+        return x
+
+    def J_ref(b, d):
+        U, tot = jnp.zeros(n), 0.0
+        for k in range(K):
+            U = newton(params(k, U, b, d), U)
+            tot = tot + vs[k] @ U
+        return tot
+    try:
+        with quiet():
+            obj = Obj.Objective(f, jnp.zeros(n), p)
+
+            def J_impl(b, d):
+                U, tot = jnp.zeros(n), 0.0
+                for k in range(K):
+                    if state_rule:
+                        U = NLS.nonlinear_solve_with_state(obj, settings, U, params(k, U, b, d))
+                    else:
+                        U = NLS.nonlinear_solve(obj, settings, U, d * (1.0 + 0.3 * k))
+                    tot = tot + vs[k] @ U
+                return tot
+            gi = jax.grad(J_impl, (0, 1))(p[0], p[2])
+            gr = jax.grad(J_ref, (0, 1))(p[0], p[2])
+    except Exception as ex:
+        return ['reverse mode through a %d-step history raised %s: %s' % (K, type(ex).__name__, str(ex)[:200])], dict(error=type(ex).__name__)
+    bad, info = [], {}
+    for name, a, b in zip(('bc parameter', 'design parameter'), gi, gr):
+        a, b = onp.array(a), onp.array(b)
+        err, sc_ = float(onp.linalg.norm(a - b)), float(onp.linalg.norm(b))
+        info[name] = dict(err=err, ref_norm=sc_)
+        if not err <= 2e-4 * (sc_ + 1e-3):
+            bad.append('%d-step history on one Objective (%s rule): dJ/d(%s) = %r differs from the chained implicit-function derivative %r by %.3g'
+                       % (K, spec['rule'], name, a.tolist(), b.tolist(), err))
+    return bad, info
 
 # ============================================================================ (b) helper VJPs of MechanicsInverse vs dense jacfwd transposes
 
@@ -188,7 +269,9 @@ def run_helpers(spec):
     A = rnd(ns, 3, 3)
 
     def compute_state_new(dispGrad, state, dt):
-        return jnp.tanh(jnp.tensordot(A, dispGrad, axes=2)) + 0.5 * state * (1.0 + jnp.trace(dispGrad)) + dt * state ** 2
+        # the time step multiplies terms that depend on the displacement gradient AND on the old state, so every helper derivative depends on dt
+        return (jnp.tanh(jnp.tensordot(A, dispGrad, axes=2)) + 0.5 * state * (1.0 + jnp.trace(dispGrad)) + dt * state ** 2
+                + dt * jnp.sin(jnp.tensordot(A, dispGrad @ dispGrad.T, axes=2) + state))
     Mat = namedtuple('Mat', ['compute_state_new'])
     with quiet():
         fi = MI.create_ivs_update_inverse_functions(fs, 'plane strain', Mat(compute_state_new))
@@ -291,6 +374,9 @@ def specs_all(ctx):
     for k in range(ctx.n(6, 40)):
         out.append(dict(kind='reverse', rule=['design', 'state'][k % 2], family=['quartic', 'quad'][(k // 2) % 2], n=r.choice([2, 3, 4, 6]),
                         k0=r.choice([1, 2, 3]), k1=r.choice([1, 2]), k2=r.choice([1, 2, 3]), seed=r.randrange(1 << 30)))
+    for k in range(ctx.n(4, 16)):
+        out.append(dict(kind='history', rule=['state', 'design'][k % 2], family=['quartic', 'quad'][(k // 2) % 2], n=r.choice([2, 3, 4]),
+                        k0=r.choice([1, 2]), k1=r.choice([1, 2]), k2=r.choice([1, 2]), steps=r.choice([2, 3]), seed=r.randrange(1 << 30)))
     for k in range(ctx.n(2, 8)):
         out.append(dict(kind='helpers', nu=r.choice([3, 5]), Nx=r.choice([2, 3]), Ny=r.choice([2, 3]), qdeg=r.choice([1, 2]), seed=r.randrange(1 << 30)))
     for k in range(ctx.n(4, 16)):
@@ -302,7 +388,15 @@ def specs_all(ctx):
 
 
 def run_spec(spec):
-    return dict(reverse=run_reverse, helpers=run_helpers, afs=run_afs)[spec['kind']](spec)
+    try:
+        return dict(reverse=run_reverse, history=run_history, helpers=run_helpers, afs=run_afs)[spec['kind']](spec)
+    except Exception as ex:      # an exception escaping the implementation on an admissible case is a verdict, not a harness crash
+        import traceback
+        tb = traceback.extract_tb(ex.__traceback__)
+        where = next((('%s:%d' % (f.filename, f.lineno)) for f in reversed(tb) if '/optimism/' in f.filename), 'harness')
+        if where == 'harness':
+            raise
+        return ['the implementation raised %s at %s: %s' % (type(ex).__name__, where, str(ex)[:160])], dict(error=type(ex).__name__)
 
 
 def correspondence(ctx, model_ok):
@@ -337,7 +431,9 @@ def search(ctx, reasons):
     c2 = copy.copy(ctx)
     c2.tier = 'thorough'
     c2.seed = ctx.seed + 1
-    for spec in specs_all(c2)[:30]:
+    specs = specs_all(c2)
+    specs = [x for x in specs if x['kind'] == 'history'] + [x for x in specs if x['kind'] != 'history'][:30]     # histories first: they expose state carried between steps
+    for spec in specs:
         if spec.get('block_maps'):
             continue
         try:
@@ -364,7 +460,7 @@ def replay(ctx, path):
     case = rep.get('failing_input')
     print('replay of', path)
     print(json.dumps(rep.get('reasons'), indent=1, default=str)[:3000])
-    if not case or case.get('kind') not in ('reverse', 'helpers', 'afs'):
+    if not case or case.get('kind') not in ('reverse', 'history', 'helpers', 'afs'):
         print('no concrete failing input recorded; broken obligations:', rep.get('broken'))
         return 1
     bad, info = run_spec(case)
